@@ -9,6 +9,35 @@ import traceback
 import common
 
 
+def replay(pid, doc):
+    """re-run the recorded failing input on the CURRENT implementation and show what happens"""
+    rp = doc.get("replay") or {}
+    if doc.get("kind") == "no-failing-input-found":
+        print("no failing input was found; what no longer checks:")
+        for b in doc.get("no_longer_checks", []):
+            print("  " + b)
+        return 1
+    if "strategy" in rp and "parts" in rp and isinstance(rp.get("verdicts"), str):
+        from runner import impl_run
+        tc = (bytes.fromhex(rp["before"]), [bytes.fromhex(p) for p in rp["parts"]], rp["reducible"],
+              bytes.fromhex(rp["after"]))
+        run = impl_run(rp["strategy"], rp.get("cfg") or {}, tc, bytes.fromhex(rp["file0"]), rp["verdicts"],
+                       clock=rp.get("clock") or (), atom=rp.get("atom", "line"), load=bool(rp.get("load")))
+        print("implementation trace now:", run.trace)
+        print("recorded trace          :", rp.get("impl_trace"))
+        return 0 if run.trace != rp.get("impl_trace") else 1
+    if "atom" in rp and "data" in rp:
+        from splitx import impl_load
+        line, t, out = impl_load(rp["atom"], bytes.fromhex(rp["data"]),
+                                 bytes.fromhex(rp["cut_before"]) if rp.get("cut_before") else None,
+                                 bytes.fromhex(rp["cut_after"]) if rp.get("cut_after") else None)
+        print("load now gives:", line, "| dump:", out)
+        print("recorded      :", rp.get("got"))
+        return 0 if line != rp.get("got") else 1
+    print("(no automatic replay for this kind of record; the record above holds the complete input)")
+    return 1
+
+
 def main():
     ap = argparse.ArgumentParser()
     ap.add_argument("pid")
@@ -19,11 +48,9 @@ def main():
     args = ap.parse_args()
     pid = args.pid.upper()
     if args.replay:
-        print(json.dumps(json.load(open(args.replay)), indent=1))
-        mod = importlib.import_module("props." + pid.lower())
-        if hasattr(mod, "replay"):
-            return mod.replay(json.load(open(args.replay)))
-        return 0
+        doc = json.load(open(args.replay))
+        print(json.dumps(doc, indent=1)[:4000])
+        return replay(pid, doc)
     # one check at a time: the generated definitions and the .vo files are shared state
     import fcntl
     os.makedirs(os.path.join(common.VERIF, "build"), exist_ok=True)
